@@ -1,4 +1,5 @@
 import Mutagen.Model.Remote
+import Mutagen.Model.Rsync
 /-!
 Lemmas for `Properties/C21`: the interleaving invariant of the
 request / completion / response exchange, and `filteredPathsAreSubset` as the
@@ -78,6 +79,17 @@ theorem filteredPathsAreSubset_iff (f o : List String) :
       · intro h
         rw [hpre] at h
         exact sublist_after_first hn h
+
+/-! ## The rsync engine as the snapshot codec -/
+
+/-- The model of the rsync engine (C19) in the role it plays in `Scan`:
+`BytesSignature(base, 0)` (the block size is a function of the base),
+`DeltifyBytes(target, signature, 0)` and `PatchBytes`. -/
+def rsyncCodec {D : Type} [DecidableEq D] (H : List UInt8 → D) (blockSize : Bytes → Nat) :
+    Codec (Rsync.Signature D) (List Rsync.Operation) where
+  sign := fun base => Rsync.signature H base (blockSize base)
+  deltify := fun target sig => (Rsync.deltifyBytes H target sig 0).1
+  patch := fun base sig ops => Rsync.patchBytes base sig ops
 
 /-! ## Stage responses -/
 
